@@ -302,8 +302,8 @@ impl Property for C15 {
     }
     fn strategy(&self, tier: Tier) -> BoxedStrategy<Case> {
         let (maxdim, maxrows) = tier.pick((4usize, 10usize), (5, 14));
-        (1..=maxdim)
-            .prop_flat_map(move |n| (poly_spec(n, 1, maxrows), proptest::collection::vec(prop::bool::weighted(0.3), maxrows * 2)))
+        sized(maxdim, maxdim + 2)
+            .prop_flat_map(move |n| (prop_oneof![11 => poly_spec(n, 1, maxrows), 1 => poly_spec(n, maxrows, 2 * maxrows + 4)], proptest::collection::vec(prop::bool::weighted(0.3), maxrows * 4 + 8)))
             .prop_map(|(p, rm)| Case { p, rm })
             .boxed()
     }
